@@ -588,7 +588,7 @@ def run_case(case, acc):
 
 
 def plan(tier, seed):
-    n = 40_000 if tier == "quick" else 1_500_000
+    n = 40_000 if tier == "quick" else 3_000_000
     shards = [dict(kind="boundary")]
     for s, c in harness.split_range(n, 15 if tier == "quick" else 47):
         shards.append(dict(kind="gen", seed=seed, start=s, count=c))
